@@ -19,3 +19,17 @@ PROP = dict(
     assumptions=["f64 modelled by exact rationals; coordinates on dyadic grids so that every f64 operation on "
                  "coordinates is exact", "the extrapolating model variant is not modelled"],
 )
+
+MANIFEST = dict(
+    text="Coq theorems, for every number of axes and every finite set of distinct master locations: the model of "
+         "VariationModel::new keeps exactly the masters; every influence tent has min<=peak<=max, never spans zero and "
+         "peaks at its master; region scalars are in [0,1]; in the model's order no later region reaches an earlier "
+         "master (the fact the delta algorithm relies on) and a master's own scalar is 1; hence deltas reproduce every "
+         "master exactly without rounding and within 1/2 with round-ties-even, for every sparse subset of masters with "
+         "values, and the default is returned exactly. The model is tied to fontdrasil::variations on every run: "
+         "sorted order, every tent, active-axis sets, every delta weight, deltas and interpolated values are compared "
+         "on generated layouts; the property predicate is also evaluated directly on the implementation.",
+    note="Trusted: Coq kernel + vm_compute; hand-written model (coordinates as integers scaled by a common denominator, "
+         "scalars/values as exact rationals standing for f64) and its correspondence run; Rust harness. No axioms. "
+         "Order-independence of the result is checked on the implementation (two constructions compared), not yet proved.",
+)
